@@ -28,6 +28,7 @@ where
     Fut: Future<Output = Result<T, E>>,
 {
     elems: Pin<Box<[MaybeDone<Fut>]>>,
+    done: bool,
 }
 
 impl<Fut, T, E> fmt::Debug for RaceOk<Fut, T, E>
@@ -47,17 +48,27 @@ where
     type Output = Result<T, AggregateError<E>>;
 
     fn poll(mut self: Pin<&mut Self>, cx: &mut Context<'_>) -> Poll<Self::Output> {
+        assert!(!self.done, "Futures must not be polled after completing");
+
         let mut all_done = true;
+        let mut winner = None;
 
         for mut elem in iter_pin_mut(self.elems.as_mut()) {
             if elem.as_mut().poll(cx).is_pending() {
                 all_done = false
             } else if let Some(output) = elem.take_ok() {
-                return Poll::Ready(Ok(output));
+                winner = Some(output);
+                break;
             }
         }
 
+        if let Some(output) = winner {
+            self.done = true;
+            return Poll::Ready(Ok(output));
+        }
+
         if all_done {
+            self.done = true;
             let mut elems = mem::replace(&mut self.elems, Box::pin([]));
             let result: Vec<E> = iter_pin_mut(elems.as_mut())
                 .map(|e| match e.take_err() {
@@ -89,6 +100,7 @@ where
             .collect();
         RaceOk {
             elems: elems.into(),
+            done: false,
         }
     }
 }
